@@ -137,7 +137,14 @@ class AC3Info(StreamInfo):
         r.skip(5)  # bitstream ID, already read
         r.skip(3)  # bitstream mode, not needed
         channel_mode = ChannelMode(r.bits(3))
-        r.skip(2)  # dolby surround mode or surround mix level
+        # The fields between the channel mode and the LFE flag depend on
+        # the channel mode (A/52 5.3.2, syntax of bsi())
+        if (channel_mode & 1) and channel_mode != ChannelMode.MONO:
+            r.skip(2)  # center mix level
+        if channel_mode & 4:
+            r.skip(2)  # surround mix level
+        if channel_mode == ChannelMode.STEREO:
+            r.skip(2)  # dolby surround mode
         lfe_on = r.bits(1)
 
         sr_shift = max(bitstream_id, 8) - 8
